@@ -442,7 +442,7 @@ pub fn gen_history(t: &mut Tape, big_per_mille: u32) -> History {
                 2 => Some(*t.pick(&[0u16, 1, 7, 12, 36, 216, 255, 256, 65535])),
                 _ => Some(t.below(64) as u16),
             }),
-            3 if big_per_mille > 0 && t.chance(1, 1500) && !ops.iter().any(|o| matches!(o, Op::Payloads { vs, .. } if vs.len() > 1000)) => {
+            3 if big_per_mille > 0 && !crate::engine::fuzz_mode() && t.chance(1, 1500) && !ops.iter().any(|o| matches!(o, Op::Payloads { vs, .. } if vs.len() > 1000)) => {
                 // a batch of very many tiny items (more than a 16-bit counter holds), the last one or two of them not empty
                 let k = *t.pick(&[65_534usize, 65_535, 65_536, 65_537, 70_000]);
                 let vs: Vec<Val> = match t.below(4) {
